@@ -17,7 +17,19 @@ CONFIG = {
              "rotation, span of any sign up to two turns), turn, parametric, and the same curve through Curve::commands; control "
              "points from the classes fan/random/collinear/near-collinear/coincident/hairpin/tiny/loop; relative and absolute), one "
              "case per call; then rectangle, cross, regular_polygon, ellipse (full/ring/slice/ring-slice), racetrack, single-corner "
-             "Polygon::fillet. A case is non-trivial when the call appended at least two vertices; distinct = distinct payload"),
+             "Polygon::fillet; then whole-polygon Polygon::fillet: the fixed inputs (10 x 2 rectangle with radius 3 in both "
+             "orientations at tolerance 1e-2 / 1e-3, a per-vertex array with zeros, the hexagon whose fillet is its inscribed circle, "
+             "polygons with a repeated last vertex) and 240 (thorough 5000) seeded polygons: axis rectangles (square, 5:1, 1:5, long "
+             "thin, random), rotated rectangles, regular polygons, convex polygons in an ellipse, L / plus / U shapes, stars and "
+             "star-shaped polygons (reflex corners, adjacent reflex corners), both orientations, any start vertex, tolerance 1e-2 or "
+             "1e-3 of the feature size, radii below / exactly at / above what fits at a corner (half the shorter edge, between, half "
+             "the longer edge, above, 10-100x, of the order of the tolerance) given as one value, one value per vertex (with zeros, "
+             "first and last different) or a shorter cycled array. Every fillet result is decided from the arguments alone: per corner "
+             "r_eff = min(R, (min(l_in, l_out) - tol) / (2 tan(theta/2))), tangent points, centre, vertices on that circle between the "
+             "tangent directions, runs of neighbouring corners apart along the edge, sagitta <= 7 tol (one-point corners: finding "
+             "fillet:deviation), radius 0 / straight corners kept; convex input: result inside it; result simple; area = original "
+             "-/+ corner cut-offs (three cases per polygon: corners, global, one run as an arc for the driver). "
+             "A case is non-trivial when the call appended at least two vertices; distinct = distinct payload"),
     "trusted": ["harness computes the documented end points / last_ctrl with the same double operations as the C++ and searches "
                 "the vertex parameters numerically (long double); the driver verifies them with the extracted integer de Casteljau",
                 "the deviation test runs on a working grid of tol*2^-12 with a guard of 4 units (K*tol*(1+1e-3/K))",
